@@ -117,6 +117,9 @@ def vertex_ids(m):
     return ids
 
 
+FOREST_MODE = [False]
+
+
 def fingerprint(m):
     """Structural fingerprint = canonical serialisation of everything refinement reads, with vertex objects replaced
     by their coordinates:
@@ -157,7 +160,15 @@ def fingerprint(m):
             r = elc[id(e)] = (tuple(vid(v) for v in e.vertices), e.level, id(e) in leafids)
         return r
 
-    bis = getattr(m, '_InitialMesh__bisect_edge')
+    bis = getattr(m, '_InitialMesh__bisect_edge', None)
+    if bis is None or not hasattr(m, 'nbrs') or not hasattr(m, 'parent_edge'):
+        # the private tables were renamed / restructured: fall back to the public element FOREST (every element ever created with
+        # its vertices, level, parent and leaf flag).  Assumption of this mode (stated in the evidence): the private edge tables are
+        # functions of the forest, as they are in the code this was written against.
+        FOREST_MODE[0] = True
+        out = (sorted((elid(e), None if e.parent is None else elid(e.parent)) for e in m.elements),
+               sorted(vid(v) for v in m.vertices), names, extra)
+        return digest(out)
     out = (
         sorted(elid(e) for e in m.leaf_elements),
         sorted(vid(v) for v in m.vertices),
